@@ -108,6 +108,12 @@ def step (t : List String) : String :=
 def runCase (hdr : List String) (ops : List String) : List String :=
   match hdr with
   | ["x"] => "ok" :: ops.map fun l => step (toks l)
+  -- history mode: the harness takes key / iv / nonce / additional data / dst of all calls of
+  -- the case from the same backing arrays, overwritten in place between the calls.  In the
+  -- model every call is a function of its CURRENT arguments only (there is no state to
+  -- carry: `aesCBCEncrypt … key iv` etc. are pure), so the answers are those of mode `x`;
+  -- the comparison checks that the real code has no memory of earlier calls either.
+  | ["hist"] => "ok" :: ops.map fun l => step (toks l)
   | _ => "bad-op" :: ops.map fun _ => "bad-op"
 
 end Golib.C08
